@@ -5,6 +5,7 @@ import (
 	"go/ast"
 	"go/token"
 	"go/types"
+	"os"
 	"sort"
 	"strings"
 
@@ -132,7 +133,7 @@ func init() {
 	register(&Prop{
 		ID:         "C17",
 		Title:      "The SDK v1 and SDK v2 clients are behaviourally equivalent",
-		Decided:    "agreement of the two hand-duplicated adapters, method by method: (R1) for every operation implemented by both clients the normalised summaries agree – the set of guard events (lock, deferred unlock, failure test, request validation, placeholder validation, table lookup) and the core calls made; events present in only one client are reported one by one; (R2) every error code the core can emit has a case in the v2 error mapper that turns it into a typed SDK/smithy error (v1 callers get an awserr.Error for the same codes by construction); (R3) the description mappers cover the same fields in both clients; (R4) optional request pointers are never dereferenced without a nil test in either client; (R5) both clients implement the same set of operations; (R6) the arguments handed to the placeholder validation and the QueryInput built for searches have the same provenance in both clients; (R7) both adapters hand the shared engine the same internal value for the same logical attribute: S and N texts verbatim (= C10.R6) and, in the interface-based v2 conversions, the type-carrying field non-nil for every member case (= C10.R7) – an adapter-only difference here makes later expression evaluation succeed in one client and fail in the other; (R8) the batch-write validators of both clients implement the same limit – the total over all tables – and the same exactly-one-of rule (= C16.R7 evaluated per client).",
+		Decided:    "agreement of the two hand-duplicated adapters, method by method: (R1) for every operation implemented by both clients the normalised summaries agree – the set of guard events (lock, deferred unlock, failure test, request validation, placeholder validation, table lookup) and the core calls made; events present in only one client are reported one by one; (R2) every error code the core can emit has a case in the v2 error mapper that turns it into a typed SDK/smithy error (v1 callers get an awserr.Error for the same codes by construction); (R3) the description mappers cover the same fields in both clients; (R4) optional request pointers are never dereferenced without a nil test in either client; (R5) both clients implement the same set of operations; (R6) the arguments handed to the placeholder validation and the QueryInput built for searches have the same provenance in both clients; (R7) both adapters hand the shared engine the same internal value for the same logical attribute: S and N texts verbatim (= C10.R6) and, in the interface-based v2 conversions, the type-carrying field non-nil for every member case (= C10.R7) – an adapter-only difference here makes later expression evaluation succeed in one client and fail in the other; (R8) the batch-write validators of both clients implement the same limit – the total over all tables – and the same exactly-one-of rule (= C16.R7 evaluated per client); (R9) every error returned by an exported v2 operation is classified (nil / SDK / engine / bare / sentinel / configured) through helpers and the mapper: engine and bare classes never reach the caller; (R10) the failure switches act unconditionally in both clients (= C15.R4).",
 		NotDecided: "value-level equality of the mapped outputs (C10), pagination keys (C04), and everything behind the shared core (identical by construction).",
 		Assumes:    []string{"ReturnValuesOnConditionCheckFailure exists only in SDK v2 (accepted difference)"},
 		Rules: []RuleDef{
@@ -156,6 +157,8 @@ func init() {
 				e.obs = kept
 			}},
 			{ID: "R8", Desc: "both clients bound a batch write by the total over all tables and reject neither/both requests (= C16.R7)", Run: aliasRule("R8", c16R7, nil)},
+			{ID: "R9", Desc: "error class: every error an exported v2 operation returns is an SDK API error or the configured failure – engine errors pass the mapper, bare errors are never handed to it (error-discipline dataflow)", Run: c17R9},
+			{ID: "R10", Desc: "the failure switches of both clients set and clear the failure unconditionally (= C15.R4): after the same toggle sequence both clients are in the same state", Run: aliasRule("R10", c15R4, nil)},
 		},
 	})
 }
@@ -544,3 +547,273 @@ func c17R6(e *Engine) {
 }
 
 var _ = fmt.Sprint
+
+// errKinds classifies the error values a function of the analysed packages can return:
+//
+//	nil        – no error
+//	sdk        – an SDK API error (a typed exception of the service package, smithy.GenericAPIError, …)
+//	engine     – minidyn's internal error types (types.NewError codes, *types.ConditionalCheckFailedException)
+//	bare       – errors.New / fmt.Errorf values and anything of a standard-library error type
+//	sentinel   – a package-level error variable
+//	configured – the failure the test configured on the client
+//	unknown    – a value the classification cannot see through
+//
+// A mapping function (error -> error, the adapter's mapKnownError) turns engine into sdk and leaves everything else as it
+// is – exactly what errors.As on the engine's error interface does.
+type errClassifier struct {
+	keyFns map[*ssa.Function]bool // functions of the key derivation: their bare errors are "the key is malformed"
+	fdepth int
+	e      *Engine
+	memo   map[*ssa.Function]map[string]bool
+	mapper map[*ssa.Function]bool
+}
+
+func (ec *errClassifier) ofFunc(fn *ssa.Function, depth int) map[string]bool {
+	if r, ok := ec.memo[fn]; ok {
+		return r
+	}
+	out := map[string]bool{}
+	ec.memo[fn] = out // recursion guard
+	ei := errResultIndex(fn)
+	if ei < 0 {
+		// a constructor of error values: a result whose type has an Error() string method (types.Error, *baseError)
+		res := fn.Signature.Results()
+		for i := 0; i < res.Len(); i++ {
+			ms := types.NewMethodSet(res.At(i).Type())
+			if sel := ms.Lookup(nil, "Error"); sel != nil {
+				ei = i
+				break
+			}
+		}
+	}
+	if ei < 0 || fn.Blocks == nil || ec.fdepth > 10 {
+		out["unknown"] = true
+		return out
+	}
+	ec.fdepth++
+	for _, r := range returnsOf(fn) {
+		for k := range ec.of(retVals(r)[ei], 0, map[ssa.Value]bool{}) {
+			out[k] = true
+		}
+	}
+	ec.fdepth--
+	if os.Getenv("MINICHECK_TRACE") != "" {
+		fmt.Println("TRACE errkinds", ec.e.fname(fn), sortedKeys(out))
+	}
+	return out
+}
+
+func (ec *errClassifier) of(v ssa.Value, depth int, seen map[ssa.Value]bool) map[string]bool {
+	out := map[string]bool{}
+	if seen[v] || depth > 10 {
+		return out
+	}
+	seen[v] = true
+	add := func(m map[string]bool) {
+		for k := range m {
+			out[k] = true
+		}
+	}
+	e := ec.e
+	switch x := v.(type) {
+	case *ssa.Const:
+		out["nil"] = true
+	case *ssa.MakeInterface:
+		nt := namedOf(x.X.Type())
+		switch {
+		case nt == nil || nt.Obj().Pkg() == nil:
+			out["bare"] = true
+		case strings.Contains(nt.Obj().Pkg().Path(), "aws-sdk-go") || strings.Contains(nt.Obj().Pkg().Path(), "smithy-go"):
+			out["sdk"] = true
+		case nt.Obj().Pkg().Path() == modPath+"/types":
+			out["engine"] = true
+		default:
+			out["bare"] = true
+		}
+	case *ssa.Alloc:
+		nt := namedOf(x.Type())
+		switch {
+		case nt == nil || nt.Obj().Pkg() == nil:
+			out["bare"] = true
+		case strings.Contains(nt.Obj().Pkg().Path(), "aws-sdk-go") || strings.Contains(nt.Obj().Pkg().Path(), "smithy-go"):
+			out["sdk"] = true
+		case nt.Obj().Pkg().Path() == modPath+"/types":
+			out["engine"] = true
+		default:
+			out["bare"] = true
+		}
+	case *ssa.ChangeInterface:
+		add(ec.of(x.X, depth+1, seen))
+	case *ssa.Phi:
+		for _, ed := range x.Edges {
+			add(ec.of(ed, depth+1, seen))
+		}
+	case *ssa.Extract:
+		if c, ok := x.Tuple.(*ssa.Call); ok {
+			add(ec.ofCall(c, depth, seen))
+		} else if ta, ok := x.Tuple.(*ssa.TypeAssert); ok {
+			add(ec.of(ta.X, depth+1, seen))
+		} else {
+			out["unknown"] = true
+		}
+	case *ssa.Call:
+		add(ec.ofCall(x, depth, seen))
+	case *ssa.UnOp:
+		if x.Op == token.MUL {
+			if _, isG := x.X.(*ssa.Global); isG {
+				out["sentinel"] = true
+				break
+			}
+			if f, _ := loadedField(x); f != nil && f.Name() == "forceFailureErr" {
+				out["configured"] = true
+				break
+			}
+			if al, isAl := x.X.(*ssa.Alloc); isAl {
+				for _, st := range storesTo(al) {
+					add(ec.of(st.Val, depth+1, seen))
+				}
+				break
+			}
+		}
+		out["unknown"] = true
+	case *ssa.Lookup, *ssa.Parameter:
+		out["unknown"] = true
+	case *ssa.TypeAssert:
+		add(ec.of(x.X, depth+1, seen))
+	default:
+		_ = e
+		out["unknown"] = true
+	}
+	return out
+}
+
+func (ec *errClassifier) ofCall(c *ssa.Call, depth int, seen map[ssa.Value]bool) map[string]bool {
+	out := map[string]bool{}
+	g := c.Call.StaticCallee()
+	name := staticCalleeName(c)
+	switch {
+	case name == "errors.New" || name == "fmt.Errorf":
+		if ec.keyFns[c.Parent()] {
+			out["bare-key"] = true
+		} else {
+			out["bare"] = true
+		}
+	case g == nil:
+		// dynamic call: every possible callee
+		fs := ec.e.callees(c)
+		if len(fs) == 0 {
+			out["unknown"] = true
+		}
+		for _, h := range fs {
+			for k := range ec.ofFunc(h, depth+1) {
+				out[k] = true
+			}
+		}
+	case ec.mapper[g]:
+		for k := range ec.of(c.Call.Args[0], depth+1, seen) {
+			if k == "engine" {
+				k = "sdk"
+			}
+			out[k] = true
+		}
+	case ec.e.fnRole(g) != "":
+		for k := range ec.ofFunc(g, depth+1) {
+			out[k] = true
+		}
+	default:
+		out["unknown"] = true
+	}
+	return out
+}
+
+func newErrClassifier(e *Engine, mk *ssa.Function) *errClassifier {
+	ec := &errClassifier{e: e, memo: map[*ssa.Function]map[string]bool{}, mapper: map[*ssa.Function]bool{mk: true}, keyFns: map[*ssa.Function]bool{}}
+	if gk := e.fn("core", "keySchema.GetKey"); gk != nil {
+		for g := range e.reach(gk) {
+			ec.keyFns[g] = true
+		}
+	}
+	return ec
+}
+
+// c13R10: a request whose key lacks a key attribute or supplies it with the wrong type is rejected with a VALIDATION
+// error. The key derivation itself reports bare errors; every exported single-item operation of the v2 client must wrap
+// them (ValidationException) before they reach the caller – handing them to the mapper does nothing, it only translates
+// the engine's coded errors.
+func c13R10(e *Engine) {
+	mk := e.fn("v2", "mapKnownError")
+	if !e.anchor("R10", "v2.mapKnownError", mk == nil) {
+		return
+	}
+	ec := newErrClassifier(e, mk)
+	ms := e.clientMethods("v2")
+	n := 0
+	for _, op := range []string{"PutItem", "UpdateItem", "DeleteItem", "GetItem"} {
+		fn := ms[op]
+		if fn == nil {
+			continue
+		}
+		n++
+		kinds := ec.ofFunc(fn, 0)
+		construct := "v2.Client." + op + ":malformed-key-is-a-validation-error"
+		if kinds["bare-key"] {
+			pos := e.pos(fn.Pos())
+			ei := errResultIndex(fn)
+			for _, r := range returnsOf(fn) {
+				if ec.of(retVals(r)[ei], 1, map[ssa.Value]bool{})["bare-key"] {
+					pos = e.ipos(r)
+					break
+				}
+			}
+			e.fail("R10", construct, pos, "the error of the key derivation (missing key attribute, wrong type) reaches the caller as a bare error value, not as a ValidationException: callers cannot tell a malformed key from any other failure")
+		} else {
+			e.pass("R10", construct, e.pos(fn.Pos()), "errors of the key derivation reach the caller only wrapped as validation errors (classes: %v)", sortedKeys(kinds))
+		}
+	}
+	if n < 4 {
+		e.fail("R10", "count:R10", "-", "only %d single-item operations found in the v2 client", n)
+	}
+}
+
+// c17R9: the error CLASS a v2 caller sees. Every error returned by an exported operation or exported helper of the v2
+// client is an SDK API error (or the configured failure): never the engine's internal error type, never a bare
+// errors.New/fmt.Errorf value – callers select on the class (errors.As to the SDK's exception types), so an engine error
+// that skips the mapper, or a bare error handed to the mapper (which can only translate engine errors), changes what a
+// caller's error handling does although the message text is the same.
+func c17R9(e *Engine) {
+	mk := e.fn("v2", "mapKnownError")
+	if !e.anchor("R9", "v2.mapKnownError", mk == nil) {
+		return
+	}
+	ec := newErrClassifier(e, mk)
+	n := 0
+	for _, fn := range sortedFns(e, fnSet(e.funcs("v2"))) {
+		if fn.Parent() != nil || fn.Object() == nil || !fn.Object().Exported() || errResultIndex(fn) < 0 {
+			continue
+		}
+		if fn.Signature.Recv() != nil {
+			if nt := namedOf(fn.Signature.Recv().Type()); nt == nil || nt.Obj().Name() != "Client" {
+				continue
+			}
+		}
+		n++
+		kinds := ec.ofFunc(fn, 0)
+		construct := e.fname(fn) + ":error-class"
+		if kinds["engine"] {
+			pos := e.pos(fn.Pos())
+			ei := errResultIndex(fn)
+			for _, r := range returnsOf(fn) {
+				if ec.of(retVals(r)[ei], 1, map[ssa.Value]bool{})["engine"] {
+					pos = e.ipos(r)
+					break
+				}
+			}
+			e.fail("R9", construct, pos, "the operation can return an error of the engine's internal type (classes seen: %v): it was not passed through the mapper – v2 callers that select on the SDK's error types (ResourceNotFoundException, ConditionalCheckFailedException, APIError codes) take the wrong branch, and the v1 client reports another class for the same request", sortedKeys(kinds))
+		} else {
+			e.pass("R9", construct, e.pos(fn.Pos()), "no engine-internal error reaches the caller (classes: %v)", sortedKeys(kinds))
+		}
+	}
+	if n < 12 {
+		e.fail("R9", "count:R9", "-", "only %d exported error-returning operations of the v2 client found", n)
+	}
+}
